@@ -218,6 +218,44 @@ def run(ctx):
         if mo[:1] != ["ok"] or json.dumps(mo[1]) != json.dumps(fr.plain(q.get_quantization_recipe())):
             ctx.disagree("recipe.shipped", {"recipe": name}, mo, fr.plain(q.get_quantization_recipe()))
         ctx.tag("shipped")
+    # "quantizes the same model with the same calibration result to byte-identical output", on GENERATED models: fan-out tensors whose
+    # consumers get different modes by rules on their own scopes (several operators inserted after one tensor, suffixed names), multi-
+    # subgraph models, tied constants.  One calibration result is handed to both objects.
+    from .. import fam_pipeline as fp
+    from .. import pipeline as pl
+    n_gen = 0
+    for i in range(40 if ctx.tier == "quick" else 400):
+        if ctx.left() < 20:
+            break
+        case = fp.gen_per_op_modes_case(rng) if i % 2 == 0 else fp.gen_case(rng, i)
+        try:
+            q1 = quantizer.Quantizer(case.mb, copy.deepcopy(case.recipe) if case.recipe is not None else None)
+            if case.cmds:
+                pl.apply_recipe(q1, case.cmds)
+            rec_json = json.loads(json.dumps(q1.get_quantization_recipe()))
+            if not rec_json:
+                continue
+            cr = pl.calibrate_all(q1, case.data) if q1.need_calibration else None
+            b1 = bytes(q1.quantize(copy.deepcopy(cr)).quantized_model)
+        except Exception:  # noqa: BLE001  (rejections are C01/C08 business; only equality matters here)
+            ctx.tag("generated_bytes_rejected")
+            continue
+        try:
+            q2 = quantizer.Quantizer(case.mb, copy.deepcopy(rec_json))
+            b2 = bytes(q2.quantize(copy.deepcopy(cr)).quantized_model)
+        except Exception as e:  # noqa: BLE001
+            b2 = "raise:" + type(e).__name__
+        n_gen += 1
+        ctx.case({"generated_model_bytes": case.desc if isinstance(case.desc, str) else len(case.cmds or [])}, True)
+        ctx.tag("generated_bytes_compared")
+        names = [pl.tname(t) for sg in pl.read(b1).subgraphs for t in sg.tensors]
+        if any(n.endswith(("_quantized_1", "_dequant_1", "_requant_1")) or "_1" == n[-2:] for n in names):
+            ctx.tag("generated_bytes_suffixed_names")
+        if b1 != b2:
+            what = b2 if isinstance(b2, str) else "different bytes"
+            ctx.fail(f"quantize() output differs between the original and the reloaded recipe on a generated model ({what})",
+                     {**case.replay(), "recipe": rec_json}, "reload-bytes-differ")
+    ctx.extra["generated_models_bytes_compared"] = n_gen
     drv.close()
     return common.finish(ctx)
 
